@@ -148,7 +148,7 @@ def R2_record(ctx):
         rate = A.ev(c[2][0])
         hit = r.sel.get(nosite(getc)) == "Some" if nosite(getc) in r.sel else None
         cache_arm = r.sel.get(("field", ("arg", 1), "cache"))
-        arm = "no-cache" if cache_arm == "None" else ("hit" if sel_get(r, getc) == "Some" else "miss")
+        arm = "no-cache" if sel_is(r, ("field", ("arg", 1), "cache"), "None") else ("hit" if sel_is(r, nosite(getc), "Some") else "miss")
         arms.add(arm)
         want = (S("cached") if arm == "hit" else S("rate")) * S("adj")
         ctx.check(rate.equals(want), "rate*adjustment:%s" % arm, "on the %s arm the rate handed to Energy::create is %r, expected %r (adjustment applied exactly once to the model's rate)" % (arm, rate, want), b.where(), detail=repr(want))
@@ -198,6 +198,8 @@ def R3_soc(ctx):
     hundred = Ratio(Poly.const(100))
     b = F.need(OPS + "soc_from_battery_and_delta")
     rt = nosite(deep_strip(Terms(b).return_term()))
+    if clamp_0_100(rt) is None:
+        rt = nosite(deep_strip(expand_calls(F, rt)))  # e.g. delegating to as_soc_percent(start - used, max)
     x = clamp_0_100(rt)
     ctx.check(x is not None, "delta:clamped-0-100", "the result is not clamped to [0, 100]: %s" % short(rt)[:120], b.where(), detail="clamp(.., 0.0, 100.0)")
     if x is not None:
@@ -205,6 +207,8 @@ def R3_soc(ctx):
         ctx.check(A.ev(x).equals(hundred * (S("start") - S("used")) / S("max")), "delta:100*(start-used)/max", "the unclamped value is %r" % A.ev(x), b.where(), detail="100*(start-used)/max")
     b = F.need(OPS + "as_soc_percent")
     rt = nosite(deep_strip(Terms(b).return_term()))
+    if clamp_0_100(rt) is None:
+        rt = nosite(deep_strip(expand_calls(F, rt)))
     x = clamp_0_100(rt)
     ctx.check(x is not None, "percent:clamped-0-100", "the result is not clamped to [0, 100]", b.where(), detail="clamp(.., 0.0, 100.0)")
     if x is not None:
